@@ -37,6 +37,7 @@ func AtomicPoint(p unsafe.Pointer, label string) {
 		}
 	}
 	r.point(label)
+	r.event(r.addrHash(a), 0xa0)
 }
 
 // Value is the drop-in for atomic.Value.
